@@ -5,7 +5,7 @@
 
 use std::{
     borrow::Cow,
-    collections::{BTreeSet, HashMap, HashSet, VecDeque},
+    collections::{BTreeMap, BTreeSet, HashMap, HashSet, VecDeque},
     sync::Arc,
 };
 
@@ -21,7 +21,7 @@ use ordered_float::OrderedFloat;
 use write_fonts::{OtRound, types::GlyphId16};
 
 use crate::{
-    error::{BadGlyph, Error},
+    error::{BadGlyph, BadGlyphKind, Error},
     ir::{Component, Glyph, GlyphBuilder, GlyphInstance, GlyphOrder, StaticMetadata},
     orchestration::{Context, Flags, IrWork, WorkId},
     propagate_anchors::propagate_all_anchors,
@@ -168,7 +168,7 @@ enum GlyphOp {
 
 /// Fix glyphs with mixed components/contours.
 ///
-/// We presume component cycles are checked elsewhere and do not check for them here
+/// Component cycles are rejected by [`check_for_component_cycles`] before we get here
 fn resolve_inconsistencies(
     context: &Context,
     mut todo: VecDeque<(GlyphOp, Arc<Glyph>)>,
@@ -253,6 +253,54 @@ fn prune_missing_components(context: &Context) {
         }
         context.glyphs.set(new_glyph);
     }
+}
+
+/// Fail if any glyph uses itself as a component, directly or via other glyphs.
+///
+/// Everything downstream that walks the component graph assumes it is acyclic,
+/// and would otherwise recurse or spin forever. This is not itself recursive so
+/// that a long (acyclic) chain of components can't exhaust the stack.
+fn check_for_component_cycles(context: &Context) -> Result<(), BadGlyph> {
+    let glyphs = context.glyphs.all();
+    // sorted, so that we always report the same glyph for the same source
+    let components: BTreeMap<&GlyphName, BTreeSet<&GlyphName>> = glyphs
+        .iter()
+        .map(|(_, glyph)| (&glyph.name, glyph.component_names().collect()))
+        .collect();
+
+    // depth first; a glyph is done once nothing reachable from it is on a cycle
+    let mut done = HashSet::new();
+    for (root, root_components) in &components {
+        if done.contains(root) {
+            continue;
+        }
+        // the chain of glyphs from root to where we are now, each with the
+        // components of it we have yet to look at
+        let mut path = vec![(*root, root_components.iter())];
+        let mut on_path = HashSet::from([*root]);
+        while let Some((_, todo)) = path.last_mut() {
+            let Some(next) = todo.next() else {
+                let (name, _) = path.pop().unwrap();
+                on_path.remove(name);
+                done.insert(name);
+                continue;
+            };
+            if on_path.contains(next) {
+                let start = path.iter().position(|(name, _)| name == next).unwrap();
+                let cycle = path[start..].iter().map(|(name, _)| (*name).clone());
+                return Err(BadGlyph::new(
+                    (*next).clone(),
+                    BadGlyphKind::ComponentCycle(cycle.collect()),
+                ));
+            }
+            // missing components were pruned before we get here
+            if let Some(next_components) = components.get(next).filter(|_| !done.contains(next)) {
+                on_path.insert(*next);
+                path.push((*next, next_components.iter()));
+            }
+        }
+    }
+    Ok(())
 }
 
 /// Equivalent to 'SkipExportGlyphsFilter' in pythonland:
@@ -825,6 +873,9 @@ impl Work<Context, WorkId, Error> for GlyphOrderWork {
         // missing component can't cause its glyph (or its siblings) to be
         // decomposed. See https://github.com/googlefonts/fontc/issues/1858
         prune_missing_components(context);
+
+        // Nothing below copes with a glyph that is (indirectly) a component of itself
+        check_for_component_cycles(context)?;
 
         // Propagate anchors from components to composites (if enabled)
         // This must happen BEFORE flattening non-export components, because after
@@ -1819,6 +1870,50 @@ mod tests {
         let a = context.get_glyph("a");
         assert!(a.default_instance().components.is_empty());
         assert!(a.default_instance().contours.is_empty());
+    }
+
+    #[test]
+    fn component_cycle_is_an_error() {
+        // a glyph that is its own component
+        let mut builder = GlyphOrderBuilder::default();
+        builder.add_glyph("a", ["b", "a"]);
+        builder.add_glyph("b", []);
+        // it stops the glyph order work, before anything tries to follow the components
+        let err = GlyphOrderWork {}.exec(&builder.into_context()).unwrap_err();
+        assert_eq!(
+            err.to_string(),
+            "Invalid source glyph 'a': 'component cycle: a -> a'"
+        );
+
+        // a longer loop; 'a' leads into it but is not part of it
+        let mut builder = GlyphOrderBuilder::default();
+        builder.add_glyph("a", ["b", "c"]);
+        builder.add_glyph("b", []);
+        builder.add_glyph("c", ["b", "d"]);
+        builder.add_glyph("d", ["e"]);
+        builder.add_glyph("e", ["b", "c"]);
+        let err = check_for_component_cycles(&builder.into_context()).unwrap_err();
+        assert_eq!(
+            err.to_string(),
+            "Invalid source glyph 'c': 'component cycle: c -> d -> e -> c'"
+        );
+    }
+
+    #[test]
+    fn shared_and_deeply_nested_components_are_not_a_cycle() {
+        let mut builder = GlyphOrderBuilder::default();
+        // 'd' is reachable from 'a' by several routes
+        builder.add_glyph("a", ["b", "c", "d"]);
+        builder.add_glyph("b", ["d", "c"]);
+        builder.add_glyph("c", ["d"]);
+        builder.add_glyph("d", ["g0"]);
+        // and is the head of a chain much deeper than we could recurse into
+        const DEPTH: usize = 50_000;
+        for i in 0..DEPTH {
+            builder.add_glyph(&format!("g{i}"), [format!("g{}", i + 1).as_str()]);
+        }
+        builder.add_glyph(&format!("g{DEPTH}"), []);
+        check_for_component_cycles(&builder.into_context()).unwrap();
     }
 
     #[test]
